@@ -1,5 +1,79 @@
-"""Regeneration of lean/PlinioVerif/Gen/*.lean from /repo's working tree (translator leg)."""
+"""Regeneration of lean/PlinioVerif/Gen/*.lean from the working tree under test (translator leg).
+
+The tree is `common.REPO` (env PLINIO_SRC, default /repo).  Files are rewritten only when their
+content changes, so that an unchanged tree costs a no-op `lake build`.
+
+    regenerate_all()   -> [(file, error)]     called by `./check --setup`
+    regenerate(names)  -> [(file, error)]     names among 'cost' (Gen/Ste.lean + Gen/Cost.lean),
+                                              'reg' (Gen/Reg.lean)
+
+A returned problem is a source construct outside the translated subset (TranslationError naming
+file / function / line).  The function concerned is emitted as a stub so that everything else still
+builds; the caller records the problem as a broken obligation, never as a violation by itself.
+"""
+import fcntl
+import importlib.util
+import os
+
+from . import common
+
+GEN_DIR = os.path.join(common.LEAN_DIR, 'PlinioVerif', 'Gen')
+GROUPS = {'cost': ['Ste.lean', 'Cost.lean'], 'reg': ['Reg.lean']}
+
+
+def _translator():
+    path = os.path.join(common.VERIF, 'translator', 'py2lean.py')
+    spec = importlib.util.spec_from_file_location('plinio_verif_py2lean', path)
+    mod = importlib.util.module_from_spec(spec)
+    spec.loader.exec_module(mod)
+    return mod
+
+
+def _write_if_changed(path, text):
+    try:
+        with open(path) as fh:
+            if fh.read() == text:
+                return False
+    except OSError:
+        pass
+    tmp = path + '.tmp%d' % os.getpid()
+    with open(tmp, 'w') as fh:
+        fh.write(text)
+    os.replace(tmp, path)
+    return True
+
+
+def regenerate(names, root=None):
+    """Regenerate the named groups from `root`; returns the list of (generated file, error text)."""
+    root = root or common.REPO
+    tr = _translator()
+    os.makedirs(GEN_DIR, exist_ok=True)
+    problems = []
+    # the project lock also protects the generated sources (several checks may run at once)
+    with open(os.path.join(common.LEAN_DIR, '.lake.lock'), 'w') as lk:
+        fcntl.flock(lk, fcntl.LOCK_EX)
+        try:
+            for name in names:
+                if name == 'cost':
+                    files, errs = tr.generate_cost(root)
+                elif name == 'reg':
+                    files, errs = tr.generate_reg(root)
+                else:
+                    raise ValueError('unknown generated group %r' % name)
+                for fname, text in files.items():
+                    _write_if_changed(os.path.join(GEN_DIR, fname), text)
+                for e in errs:
+                    problems.append((GROUPS[name][-1], str(e)))
+        finally:
+            fcntl.flock(lk, fcntl.LOCK_UN)
+    return problems
 
 
 def regenerate_all():
-    return []
+    return regenerate(['cost', 'reg'])
+
+
+def record(chk, problems):
+    """Put translation problems into a Check as broken obligations."""
+    for fname, err in problems:
+        chk.proof_broken.append('translation (Gen/%s): %s' % (fname, err))
